@@ -75,6 +75,13 @@ def render_item(it):
         return s
     if it["op"] == "dot":
         return s + " m()"
+    if it["opnd"].startswith("mid"):
+        # an operator between the operands: behind operand number k
+        k = int(it["opnd"][-1])
+        mid = " <<<" if "unwrap" in it["opnd"] else " |> g"
+        ops = ["a", "f"] if it["op"] in ("fold", "try_fold") else ["A", "B", "C", "D"]
+        k = min(k, len(ops) - 1)
+        return s + " " + ", ".join(o + (mid if j + 1 == k else "") for j, o in enumerate(ops))
     if it["op"] in ("fold", "try_fold"):
         return s + " a, f"
     return s + " f"
